@@ -2322,9 +2322,10 @@ class Meteo(Output):
         if not isSingleTime:
             mpl.xlabel("Time of day (h)")
 
-        mpl.gca().xaxis.grid(True, which='major', color='k', zorder=-10, linestyle='-', linewidth=2)
-        mpl.gca().xaxis.grid(True, which='minor', color='k', zorder=0, linestyle='--')
-        mpl.gca().yaxis.grid(True, which='major', color='k', zorder=0)
+        if self.grid:
+            mpl.gca().xaxis.grid(True, which='major', color='k', zorder=-10, linestyle='-', linewidth=2)
+            mpl.gca().xaxis.grid(True, which='minor', color='k', zorder=0, linestyle='--')
+            mpl.gca().yaxis.grid(True, which='major', color='k', zorder=0)
 
 
 class PitHist(Output):
